@@ -1,0 +1,71 @@
+//go:build verif
+// +build verif
+
+package server
+
+import (
+	"net"
+	"time"
+
+	"github.com/XiaoMi/Gaea/mysql"
+	"github.com/XiaoMi/Gaea/util"
+)
+
+// Add-only exports for the verification harness (property C39, whole sessions:
+// the real Session.Run over any net.Conn, against the manager of
+// VerifC39NewManager). Nothing here is compiled without the tag.
+
+// VerifC39NewServer returns a Server good enough for Session.Run: manager,
+// time wheel, session timeout, version status; no listener, no admin server.
+func VerifC39NewServer(m *Manager) (*Server, error) {
+	s := new(Server)
+	s.manager = m
+	s.ServerVersion = "5.7.25-gaea"
+	s.ServerVersionCompareStatus = util.NewVersionCompareStatus("5.7.25")
+	s.sessionTimeout = time.Hour
+	tw, err := util.NewTimeWheel(time.Second, timeWheelBucketsNum)
+	if err != nil {
+		return nil, err
+	}
+	s.tw = tw
+	s.tw.Start()
+	return s, nil
+}
+
+// VerifC39NewRunSession does what newSession, a successful handshake and
+// onConn do before Session.Run, for an already authenticated user over any
+// net.Conn; keepSession is the session's keep-session flag.
+func VerifC39NewRunSession(s *Server, co net.Conn, namespace, user, db string, keepSession bool) *Session {
+	cc := new(Session)
+	cc.c = NewClientConn(mysql.NewConn(co), s.manager)
+	cc.proxy = s
+	cc.manager = s.manager
+	cc.c.SetConnectionID(1)
+	cc.c.proxy = s
+	cc.c.capability = DefaultCapability &^ mysql.ClientMultiStatements
+
+	cc.executor = newSessionExecutor(s.manager)
+	cc.executor.clientAddr = "127.0.0.1:1"
+	cc.closed.Store(false)
+	cc.executor.session = cc
+
+	cc.executor.user = user
+	cc.executor.SetCollationID(mysql.DefaultCollationID)
+	cc.executor.SetCharset(mysql.DefaultCharset)
+	cc.executor.SetDatabase(db)
+	cc.namespace = namespace
+	cc.executor.namespace = namespace
+	cc.c.namespace = namespace
+	cc.executor.SetContextNamespace()
+
+	cc.executor.keepSession = keepSession
+	cc.executor.userPriv = cc.getNamespace().userProperties[user].RWFlag
+	cc.executor.userType = cc.getNamespace().userProperties[user].OtherProperty
+	return cc
+}
+
+// VerifC39SetMaxExecuteTime sets the statement time-out of the namespace
+// (max_sql_execute_time, milliseconds; 0 = none).
+func VerifC39SetMaxExecuteTime(m *Manager, namespace string, ms int) {
+	m.GetNamespace(namespace).maxSqlExecuteTime = ms
+}
